@@ -15,6 +15,14 @@ from vlib.report import Run, EXIT_CRASH, EXIT_OK, EXIT_VIOLATION  # noqa: E402
 def do_replay(prop, path):
     data = json.load(open(path))
     fn_key = data.get("function")
+    import re
+    bm = data.get("bounded_module")
+    if not bm:
+        m = re.search(r"\((C\d\d_bounded)\)", str(data.get("reason", "")))
+        if m:
+            bm = "checks." + m.group(1)
+    if bm:
+        return importlib.import_module(bm).replay(data)
     mod = importlib.import_module(f"checks.{prop}")
     if hasattr(mod, "replay"):
         return mod.replay(data)
